@@ -5,6 +5,7 @@ Imports only the core-Lean model and property-predicate files (no Mathlib), so i
 import FFVerif.Model.Proto
 import FFVerif.Props.C01
 import FFVerif.Props.C02
+import FFVerif.Props.C03
 import FFVerif.Props.C05
 import FFVerif.Props.C06
 import FFVerif.Props.C07
@@ -134,6 +135,17 @@ def handle (toks : List String) : Option String :=
     let M ← parseMatrix M
     let keys ← parseList keys
     some (showFail (C07.failing cs t M keys))
+  | ["c03t", c, t, t'] => do
+    let c ← c.toNat?
+    let t ← parseTable t
+    let t' ← parseTable t'
+    some (if C03.tableScaledOK c t t' then "ok" else "fail:table")
+  | ["c03e", c, d, t, t'] => do
+    let c ← parseInt? c
+    let d ← parseInt? d
+    let t ← parseIntTable t
+    let t' ← parseIntTable t'
+    some (if C03.eventsMappedOK c d t t' then "ok" else "fail:events")
   | ["c01mat", h, m] => do
     let h ← parseList h
     let m ← parseTriples m
